@@ -209,7 +209,7 @@ impl Prop for C12 {
   fn rule(&self) -> String {
     "leg 1: sorted mapping sequences (0-10 segments plus repeats of the active location) with columns, source/name \
      indices, original lines/columns and their deltas spread over every VLQ digit count up to 2^30, both signs, 1-/4-/5-field, \
-     empty lines and gaps; leg 2 (exhaustive): for each of the five fields every delta d with |d| < 2^16 (quick) / 2^20 \
+     empty lines and gaps; leg 2 (exhaustive): for each of the five fields every delta d with |d| < 2^18 (quick) / 2^20 \
      (thorough) realised by a two-segment sequence; leg 3: well-formed strings written by an independent encoder with \
      redundant continuation digits, empty segments, runs of ';' and columns going backwards. Oracle: independent v3 \
      decoder/encoder + drop rule + line-only rule. Non-trivial: a delta of magnitude >= 16 (crosses a VLQ digit boundary) \
@@ -217,24 +217,24 @@ impl Prop for C12 {
   }
   fn legs(&self, _tier: Tier) -> Vec<Leg<Case>> {
     vec![
-      Leg { name: "sorted sequences", source: Cases::Generated(Box::new(seq_strategy), 100_000, 3_000_000) },
+      Leg { name: "sorted sequences", source: Cases::Generated(Box::new(seq_strategy), 400_000, 5_000_000) },
       Leg {
         name: "every single-field delta (exhaustive)",
         source: Cases::Enumerated(Box::new(|tier| {
-          let lim: i64 = tier.pick(1 << 16, 1 << 20);
+          let lim: i64 = tier.pick(1 << 18, 1 << 20);
           Box::new((0u8..5u8).flat_map(move |field| {
             let lo = if field == 0 { 1 } else { -(lim - 1) };
             (lo..lim).map(move |delta| Case::Delta { field, base: if delta < 0 { (-delta) as u32 + 3 } else { 3 }, delta })
           }))
         })),
       },
-      Leg { name: "unusual spellings", source: Cases::Generated(Box::new(spelled_strategy), 100_000, 2_000_000) },
+      Leg { name: "unusual spellings", source: Cases::Generated(Box::new(spelled_strategy), 400_000, 4_000_000) },
     ]
   }
   fn extra_coverage(&self, tier: Tier) -> std::collections::BTreeMap<String, serde_json::Value> {
     [
       ("exhaustive".to_string(), serde_json::Value::Bool(false)),
-      ("exhaustive_subspace".to_string(), format!("all single-field deltas of magnitude < 2^{} for each of the 5 fields", tier.pick(16, 20)).into()),
+      ("exhaustive_subspace".to_string(), format!("all single-field deltas of magnitude < 2^{} for each of the 5 fields", tier.pick(18, 20)).into()),
     ]
     .into_iter()
     .collect()
